@@ -75,11 +75,11 @@ func checkKW(c kwCase) (string, caseStat) {
 			return fmt.Sprintf("Unwrap of %d arbitrary bytes panicked: %v", c.RawLen, pnc), st
 		}
 		if err != nil && len(out) != 0 {
-			return fmt.Sprintf("Unwrap returned output alongside an error: %x, %v", out, err), st
+			return fmt.Sprintf("Unwrap returned output alongside an error: %s, %v", hx(out), err), st
 		}
 		if c.RawLen%8 != 0 || c.RawLen < 24 {
 			if err == nil {
-				return fmt.Sprintf("Unwrap accepted an input of %d bytes (not n+1 >= 3 blocks of 8): %x", c.RawLen, out), st
+				return fmt.Sprintf("Unwrap accepted an input of %d bytes (not n+1 >= 3 blocks of 8): %s", c.RawLen, hx(out)), st
 			}
 			st.classes = append(st.classes, "kw.unwrap.badsize")
 		} else {
@@ -98,11 +98,11 @@ func checkKW(c kwCase) (string, caseStat) {
 		return fmt.Sprintf("Wrap panicked: %v", pnc), st
 	}
 	if err != nil && len(out) != 0 {
-		return fmt.Sprintf("Wrap returned output alongside an error: %x, %v", out, err), st
+		return fmt.Sprintf("Wrap returned output alongside an error: %s, %v", hx(out), err), st
 	}
 	if c.PtLen%8 != 0 || c.PtLen < 16 {
 		if err == nil {
-			return fmt.Sprintf("Wrap accepted key data of %d bytes (RFC 3394: n >= 2 blocks of 8) and returned %x", c.PtLen, out), st
+			return fmt.Sprintf("Wrap accepted key data of %d bytes (RFC 3394: n >= 2 blocks of 8) and returned %s", c.PtLen, hx(out)), st
 		}
 		st.classes = append(st.classes, "kw.wrap.badsize")
 		return "", st
@@ -115,14 +115,14 @@ func checkKW(c kwCase) (string, caseStat) {
 		return "harness: " + rerr.Error(), st
 	}
 	if !bytes.Equal(out, want) {
-		return fmt.Sprintf("Wrap differs from the RFC 3394 reference: kit %x reference %x", out, want), st
+		return fmt.Sprintf("Wrap differs from the RFC 3394 reference: kit %s reference %s", hx(out), hx(want)), st
 	}
 	back, err, pnc := kwUnwrap(kek, want)
 	if pnc != nil || err != nil || !bytes.Equal(back, pt) {
-		return fmt.Sprintf("Unwrap does not invert Wrap: %x, %v, panic %v", back, err, pnc), st
+		return fmt.Sprintf("Unwrap does not invert Wrap: Unwrap(wrapped key of %d bytes = %s) = %s, %v, panic %v; key data %s", len(want), hx(want), hx(back), err, pnc, hx(pt)), st
 	}
 	st.nontrivial = true
-	st.classes = append(st.classes, "kw.roundtrip")
+	st.classes = append(st.classes, "kw.roundtrip", kwCounterClass(c.PtLen/8))
 	if c.Mut == nil {
 		return "", st
 	}
@@ -135,10 +135,25 @@ func checkKW(c kwCase) (string, caseStat) {
 		return fmt.Sprintf("Unwrap of a changed wrapped key (%d bytes) panicked: %v", len(mutated), pnc), st
 	}
 	if err == nil || len(back) != 0 {
-		return fmt.Sprintf("changed wrapped key accepted: input %x (original %x) -> %x, %v", mutated, want, back, err), st
+		return fmt.Sprintf("changed wrapped key accepted: input %s (original %s) -> %s, %v", hx(mutated), hx(want), hx(back), err), st
 	}
 	st.classes = append(st.classes, "kw.reject."+c.Mut.Kind)
 	return "", st
+}
+
+// kwCounterClass names the width of the largest step counter t = 6n that RFC 3394 mixes into
+// A as a 64-bit big-endian value for key data of n blocks: one byte up to n = 42 (336 bytes,
+// every ordinary key), two bytes up to n = 10922, three bytes beyond. The RFC places no upper
+// limit on n ("the only restriction ... is that n be at least two").
+func kwCounterClass(n int) string {
+	switch t := 6 * n; {
+	case t < 1<<8:
+		return "kw.counter.1byte"
+	case t < 1<<16:
+		return "kw.counter.2bytes"
+	default:
+		return "kw.counter.3bytes"
+	}
 }
 
 func (c kwCase) fp() uint64 {
@@ -149,7 +164,8 @@ func (c kwCase) fp() uint64 {
 	return vk.FP("kw", c.KekLen, c.PtLen, c.RawLen, c.RawIV, m)
 }
 
-// TestKeyWrapSweep: key-encryption-key size x key data length 0..80; Unwrap of
+// TestKeyWrapSweep: key-encryption-key size x key data length 0..80 (long key data:
+// TestKeyWrapLongSweep); Unwrap of
 // arbitrary inputs of every length 0..96; for well-formed wraps every single-byte
 // change (two masks), every truncation and every extension by 1..17 bytes.
 func TestKeyWrapSweep(t *testing.T) {
@@ -192,19 +208,101 @@ func TestKeyWrapSweep(t *testing.T) {
 	}
 }
 
+// kwCarryBlocks: block counts n around the places where a step counter n*j+i (j = 0..5)
+// first needs a second, respectively third byte - j*n or 6n crossing 2^8 and 2^16 - and n
+// itself crossing 2^16.
+var kwCarryBlocks = []int{10922, 10923, 10924, 13107, 13108, 16383, 16384, 21845, 21846, 32767, 32768, 65535, 65536, 65537}
+
+// TestKeyWrapLongSweep: long key data. Every block count n = 11..320 (88..2560 bytes; the
+// step counter passes 256 from n = 43 and takes every value up to 1920) for the three
+// key-encryption-key sizes, the block counts of kwCarryBlocks (up to 512 KiB), and at a set
+// of long sizes the lengths next to a multiple of 8 (rejected), single-byte changes spread
+// over the wrapped key, truncations and extensions.
+func TestKeyWrapLongSweep(t *testing.T) {
+	sec := vk.Sec("KeyWrapLongSweep")
+	idx := 0
+	run := func(c kwCase) {
+		idx++
+		if !vk.Mine(idx) {
+			return
+		}
+		msg, st := checkKW(c)
+		if msg != "" {
+			t.Fatalf("C03 key wrap violated: %s\ncase: %s", msg, c)
+		}
+		sec.Case(st.nontrivial, c.fp(), st.classes...)
+		sec.Sample(func() any { return c.String() })
+	}
+	keks := []int{16, 24, 32}
+	for _, kl := range keks {
+		for n := 11; n <= 320; n++ {
+			run(kwCase{KekLen: kl, PtLen: 8 * n, Seed: uint64(n*37 + kl)})
+		}
+		for _, n := range []int{42, 43, 44, 85, 86, 128, 171, 256, 257, 320} {
+			pl := 8 * n
+			for _, d := range []int{-7, -1, 1, 4} {
+				run(kwCase{KekLen: kl, PtLen: pl + d, Seed: uint64(pl + d)})
+			}
+			for _, rl := range []int{pl + 8, pl + 7, pl + 9} {
+				run(kwCase{KekLen: kl, PtLen: -1, RawLen: rl, RawIV: true, Seed: uint64(rl + kl)})
+			}
+			wl := pl + 8
+			for _, p := range []int{0, 7, 8, 15, wl / 2, wl - 9, wl - 8, wl - 1} {
+				for _, mk := range []byte{0x01, 0x80} {
+					run(kwCase{KekLen: kl, PtLen: pl, Seed: uint64(p), Mut: &mutation{Comp: "ct", Kind: "flip", Pos: p, Mask: mk}})
+				}
+			}
+			for _, k := range []int{1, 7, 8, 9, 16, wl - 16} {
+				run(kwCase{KekLen: kl, PtLen: pl, Seed: uint64(k), Mut: &mutation{Comp: "ct", Kind: "trunc", N: k}})
+			}
+			for _, k := range []int{1, 7, 8, 9, 16} {
+				run(kwCase{KekLen: kl, PtLen: pl, Seed: uint64(k), Mut: &mutation{Comp: "ct", Kind: "ext", N: k}})
+			}
+		}
+	}
+	for i, n := range kwCarryBlocks {
+		for k, kl := range keks {
+			if !vk.Thorough() && k != i%3 {
+				continue // quick: one key-encryption-key size per block count, in rotation
+			}
+			run(kwCase{KekLen: kl, PtLen: 8 * n, Seed: uint64(n + kl)})
+			run(kwCase{KekLen: kl, PtLen: 8 * n, Seed: uint64(n + kl), Mut: &mutation{Comp: "ct", Kind: "flip", Pos: 8*n + 3, Mask: 0x10}})
+		}
+	}
+}
+
 func TestKeyWrapRapid(t *testing.T) {
 	sec := vk.Sec("KeyWrapRapid")
 	vk.Check(t, 10000, 500000, func(rt *rapid.T) {
 		c := kwCase{KekLen: rapid.SampledFrom([]int{16, 24, 32}).Draw(rt, "kek"), Seed: rapid.Uint64().Draw(rt, "seed")}
+		// lengths: mostly the sizes of ordinary keys; one draw in eight is long (up to 5000
+		// bytes for the arbitrary lengths, up to 12000 blocks = 96000 bytes for well-formed key
+		// data, so that the step counter needs two and three bytes)
+		long := rapid.IntRange(0, 7).Draw(rt, "long") == 0
 		switch rapid.IntRange(0, 9).Draw(rt, "class") {
 		case 0:
 			c.PtLen = -1
-			c.RawLen = rapid.IntRange(0, 200).Draw(rt, "rawLen")
+			if long {
+				c.RawLen = rapid.IntRange(201, 5000).Draw(rt, "rawLenLong")
+			} else {
+				c.RawLen = rapid.IntRange(0, 200).Draw(rt, "rawLen")
+			}
 			c.RawIV = rapid.Bool().Draw(rt, "rawIV")
 		case 1:
-			c.PtLen = rapid.IntRange(0, 200).Draw(rt, "ptLen")
+			if long {
+				c.PtLen = rapid.IntRange(201, 5000).Draw(rt, "ptLenLong")
+			} else {
+				c.PtLen = rapid.IntRange(0, 200).Draw(rt, "ptLen")
+			}
 		default:
-			c.PtLen = 8 * rapid.IntRange(2, 40).Draw(rt, "ptBlocks")
+			switch {
+			case !long:
+				c.PtLen = 8 * rapid.IntRange(2, 40).Draw(rt, "ptBlocks")
+			case rapid.IntRange(0, 7).Draw(rt, "veryLong") == 0:
+				c.PtLen = 8 * rapid.IntRange(641, 12000).Draw(rt, "ptBlocksVeryLong")
+			default:
+				c.PtLen = 8 * rapid.IntRange(41, 640).Draw(rt, "ptBlocksLong")
+			}
 			c.Mut = genMutation(rt, []string{"ct"})
 		}
 		msg, st := checkKW(c)
